@@ -29,7 +29,7 @@ import (
 // stale survivor, fresh process); the target process keeps using its handle
 // after the operation that met the error.
 func GenIOErrEnum(prop string, seed uint64) *RunSpec {
-	spec := GenCrashEnum(prop, seed)
+	spec := genCrashEnumWith(prop, seed, multiBlock)
 	spec.Scenario = "S-IOERR"
 	r := simrt.NewRng(seed, "ioerr-follow")
 	g := &genCtx{r: r, p: &Profile{RefsPerTxn: [2]int{1, 2}, LogsPerTxn: [2]int{0, 1}, Logs: true}, names: defaultNames, nextID: 7000, cfg: spec.Cfg, timeLo: 100}
@@ -47,6 +47,17 @@ func GenIOErrEnum(prop string, seed uint64) *RunSpec {
 		spec.Tasks[0].Ops = append(ops, follow...)
 	}
 	return spec
+}
+
+// multiBlock makes tables that span several blocks frequent (small blocks,
+// wider alphabets, more records per transaction): an error can then hit the
+// read or write of a table's second or later block.
+func multiBlock(p *Profile) {
+	p.SmallBlocks = true
+	p.ManyNames = 40
+	if p.RefsPerTxn[1] < 8 {
+		p.RefsPerTxn[1] = 8
+	}
 }
 
 func ioFault(seed uint64, task, step int) simrt.Fault {
@@ -144,6 +155,7 @@ func ioConcPart(prop string, q, t int, p0 *Profile, opts RunOpts) Part {
 	// multi-step transactions (begin ... commit) meet errors between their steps
 	pc := *p0
 	p := &pc
+	multiBlock(p)
 	if p.W != nil && len(p.RoleW) == 0 {
 		w := map[string]int{}
 		for k, v := range p.W {
